@@ -243,8 +243,9 @@ func init() {
 		p := a[0].(Ptr)
 		return m.bytesToStr(m.load(p.C.Kids[1]).(Slice))
 	})
-	reg("unsafe.String", nil)
-	delete(intrinsics, "unsafe.String")
+	for _, n := range []string{"internal/stringslite.Clone", "strings.Clone"} {
+		reg(n, func(m *Machine, fn *ssa.Function, a []Value) Value { return a[0] })
+	}
 
 	// ---------------------------------------------------------- bytealg & friends
 	indexByte := func(m *Machine, hay []*sym.Term, c *sym.Term) Value {
